@@ -527,8 +527,11 @@ def _run(ctx: Ctx, replay: Optional[str], t0: float) -> int:
     }
     if hasattr(harness, "extra_evidence"):
         ev["coverage"].update(harness.extra_evidence(ctx, cases, verdicts))
-    (VERIF / "evidence").mkdir(exist_ok=True)
-    (VERIF / "evidence" / f"{prop}.json").write_text(json.dumps(ev, indent=1, default=str))
+    # VERIF_EVIDENCE_DIR: used by mutation self-tests on scratch trees so that they do not overwrite
+    # the evidence of runs against /repo itself
+    evdir = Path(os.environ.get("VERIF_EVIDENCE_DIR") or (VERIF / "evidence"))
+    evdir.mkdir(parents=True, exist_ok=True)
+    (evdir / f"{prop}.json").write_text(json.dumps(ev, indent=1, default=str))
 
     for line in violations:
         print(line)
